@@ -64,6 +64,9 @@ class Handler(object):
   def add(self, a, b):
     return self._do('add', (a, b))
 
+  def top(self, s):
+    return self._do('top', (s,))
+
   def fire(self, s):
     return self._do('fire', (s,))
 
@@ -514,6 +517,53 @@ def run_two_services():
   return {'n': n, 'keys': len(keys), 'viol': viol, 'sample': {'two_services': 'v.echo then w.echo'}}
 
 
+def run_deep_inheritance():
+  """An interface three levels deep (WLeaf extends WSvc extends WBase, one generated module per level): every method of every
+  level called through a client for the leaf interface, in every order of two calls."""
+  from thrift.Thrift import TMessageType
+  from ..gen_py.wsvc import WLeaf
+  _, w = two_service_cases()
+  cases = [c[1:] for c in w] + [('top', ('t-é',), False, 'T-é')]
+  viol = []
+  n = 0
+  keys = set()
+  for first in cases:
+    for second in cases:
+      world.reset()
+      ch = Chain(WLeaf.Iface, WLeaf.Processor)
+      # (after a oneway call the serial transport waits for a reply that never comes - see the assumptions -, so a oneway call
+      # is only ever the last call on its client)
+      for pos, (method, args, oneway, value) in enumerate((first, second) if not first[2] else (first,)):
+        ch.handler.outcome, ch.handler.value = 'value', value
+        bad = None
+        try:
+          ar, sent, reqs, reply = ch.call(method, args, [])
+        except Exception as e:  # noqa
+          bad = 'the call raised %r before anything was sent' % (e,)
+          reqs = None
+        n += 1
+        if bad:
+          pass
+        elif len(reqs) != 1:
+          bad = 'the processor decoded %d requests (%r)' % (len(reqs), ch.peer.errors[-1:])
+        elif reqs[0][1][0] != method or ch.handler.calls[-1] != (method, args):
+          bad = 'server decoded %s%r, caller passed %s%r' % (ch.handler.calls[-1][0], ch.handler.calls[-1][1], method, args)
+        elif reqs[0][1][1] != (TMessageType.ONEWAY if oneway else TMessageType.CALL):
+          bad = 'message type %d for a %s method' % (reqs[0][1][1], 'oneway' if oneway else 'two-way')
+        elif not oneway:
+          got = observe(ar)
+          if got != ('value', value):
+            bad = 'caller observed %r, expected %r' % (got, ('value', value))
+        keys.add((first[0], second[0], pos, bad is None))
+        if bad:
+          viol.append({'clause': 'C14.inherited-method', 'message': 'interface WLeaf extends WSvc extends WBase, %s: %s%r: %s'
+                       % ('first call' if pos == 0 else 'after %s' % (first[0],), method, args, bad), 'sig': {'method': method}})
+          break
+      if len(viol) >= 3:
+        return {'n': n, 'keys': len(keys), 'viol': viol, 'sample': None}
+  return {'n': n, 'keys': len(keys), 'viol': viol, 'sample': {'deep_inheritance': [c[0] for c in cases]}}
+
+
 def run_readall(max_len, max_cuts):
   """ScalesSocket.readAll and VarzSocketWrapper.readAll directly: every split of a byte string."""
   import gevent
@@ -623,6 +673,7 @@ def main(tier, seed):
     out = explore.pmap('vt.checks.c14', 'run_cases', jobs, pool, seed)
     out += explore.pmap('vt.checks.c14', 'run_sequences', [([i],) for i in range(len(allc))], pool, seed)
     out += explore.pmap('vt.checks.c14', 'run_two_services', [()], pool, seed)
+    out += explore.pmap('vt.checks.c14', 'run_deep_inheritance', [()], pool, seed)
     out += explore.pmap('vt.checks.c14', 'run_keyword_calls', [()], pool, seed)
     out += explore.pmap('vt.checks.c14', 'run_timeout_then_call', [()], pool, seed)
     out += explore.pmap('vt.checks.c14', 'run_readall', [(7 if tier == 'quick' else 9, 3 if tier == 'quick' else 4)], pool, seed)
@@ -645,7 +696,7 @@ def main(tier, seed):
          'one-byte-at-a-time, through the real serializer + transport + socket wrappers; request bytes decoded by the generated '
          'Processor; every ordered pair (and the triples containing a non-value outcome) of cases on ONE client, each call compared '
          'with its outcome on a fresh client; two clients for two interfaces with equally named methods in one process, every ordered '
-         'pair of calls; readAll of both socket classes over every split of short strings', exhaustive=True)
+         'pair of calls; an interface three levels deep (one generated module per level), every ordered pair of its methods; readAll of both socket classes over every split of short strings', exhaustive=True)
 
 
 def replay(path):
